@@ -136,7 +136,7 @@ def judge(w):
         fails.append((("asm-raises", cls.__name__, rb, type(e).__name__), "%08x renders as '%s'; asm() of that text raised %s: %s" % (w, text, type(e).__name__, str(e)[:120])))
     if fails:
         return "fail", fails
-    return "ok", (cls.__name__, text)
+    return "ok", (cls.__name__, text, i)
 
 
 def field_diff(a, b):
@@ -216,6 +216,25 @@ def account(run, st_, w, r):
     if kind == "ok":
         st_.klass("decoded_ok:" + r[1][0])
         st_.nt(w)
+        # an instruction object decoded earlier (same class) must still be its own word and text after this decode
+        held = getattr(st_, "held", None)
+        if held is None:
+            held = st_.held = {}
+        h = held.get(r[1][0])
+        if h is not None and h[0] != w:
+            try:
+                same = (h[2].bin() == h[0]) and (str(h[2]) == h[1])
+            except Exception:
+                same = False
+            if not same:
+                sig = runner.norm_sig(("earlier-object-changed", r[1][0]))
+                if sig in run.known:
+                    st_.known_hits[sig] += 1
+                elif not any(f[0] == sig for f in st_.failures):
+                    st_.fail(sig, "the %s object decoded from %08x ('%s') re-encodes / renders differently after %08x was decoded" % (r[1][0], h[0], h[1], w), {"word": "%08x" % h[0], "then": "%08x" % w})
+                held[r[1][0]] = (w, r[1][1], r[1][2])
+        elif h is None:
+            held[r[1][0]] = (w, r[1][1], r[1][2])
         if st_.classes["decoded_ok:" + r[1][0]] <= 1:
             st_.sample(["%08x" % w, r[1][1]])
         return None
@@ -380,6 +399,17 @@ def main(run):
 
 def replay(run, case):
     w = int(case["word"], 16)
+    if "then" in case:
+        with runner.quiet():
+            a = judge(w)
+            if a[0] != "ok":
+                return None
+            judge(int(case["then"], 16))
+            try:
+                same = a[1][2].bin() == w and str(a[1][2]) == a[1][1]
+            except Exception:
+                same = False
+        return None if same else (("earlier-object-changed", a[1][0]), "the object decoded from %08x changed after %s was decoded" % (w, case["then"]))
     with runner.quiet():
         r = judge(w)
     if r[0] != "fail":
